@@ -8,4 +8,5 @@ import RV.C01.LemIter
     LemOps    `Graph` operations: addN, set, +=, -=, new graphs of the binary operators
     LemSimple `SimpleMemory`
     LemIter   histories keep the invariant; generator interleaved with mutations
+    LemStore  store-level API: remove(pattern, None), __all_contexts, contexts, add_graph, remove_graph
 -/
